@@ -9,8 +9,8 @@ if [ -n "$(git -C /repo status --porcelain)" ]; then echo "/repo is not clean"; 
 git -C /repo apply $S/patch.diff || exit 2
 for id in "$@"; do
   tier=${TIER:-quick}
-  ./check $id $tier > $S/detect_$id.log 2>&1; rc=$?
-  echo "== seed $name check $id $tier: rc=$rc"; grep -E "^VIOLATION|^KNOWN-FINDING|^BROKEN|CHECK-ERROR" $S/detect_$id.log | cut -c1-260
+  ./check $id $tier > $S/${OUT_PREFIX:-detect}_$id.log 2>&1; rc=$?
+  echo "== seed $name check $id $tier: rc=$rc"; grep -E "^VIOLATION|^KNOWN-FINDING|^BROKEN|CHECK-ERROR" $S/${OUT_PREFIX:-detect}_$id.log | cut -c1-260
 done
 git -C /repo checkout -- .
 # the generated Coq and the caches must describe the unchanged tree again
